@@ -188,7 +188,32 @@ partial def decEv (j : Json) : Except String Ev := do
         | some q => pure q
         | none => throw s!"unknown quota {n}")
       pure (.unusedVotes (← subList "rounds") qs d)
-  | "plist" => pure (.partyList (← sub "party") none none)
+  | "plist" => do
+      let le : Option ListSem ← match j.getObjVal? "open" with
+        | .ok .null => pure none
+        | .error _ => pure none
+        | .ok o => do
+          let ok ← o.getObjValAs? String "k"
+          if ok == "list_order" then pure (some listOrderLeaf)
+          else do
+            let jf ← getRatOpt o "jump_fraction"
+            let qn ← match o.getObjVal? "quota" with
+              | .ok (.str q) => pure (some q)
+              | _ => pure none
+            let q ← match qn with
+              | none => pure none
+              | some "hare" => pure (some Gen.Quota.hare)
+              | some "droop" => pure (some Gen.Quota.droop)
+              | some "hagenbach_bischoff" => pure (some Gen.Quota.hagenbach_bischoff)
+              | some other => throw s!"unknown quota {other}"
+            let qf ← getRat o "quota_fraction"
+            let th ← o.getObjValAs? Bool "take_higher"
+            let ae ← o.getObjValAs? Bool "accept_equal"
+            let lp ← o.getObjValAs? Bool "list_precedence"
+            pure (some (thresholdOpenListLeaf
+              { jumpFraction := jf, quota := q, quotaFraction := qf, takeHigher := th, acceptEqual := ae,
+                listPrecedence := lp }))
+      pure (.partyList (← sub "party") le none)
   | "vs" => pure (.votingSystem (← sub "e"))
   | _ => throw s!"unknown node {k}"
 
